@@ -12,7 +12,9 @@ import (
 	"os"
 	"reflect"
 	"runtime"
+	"runtime/debug"
 	"sync"
+	"time"
 )
 
 type tapeValue struct {
@@ -87,6 +89,14 @@ func Byte(name string) byte     { return byte(next("byte").Val) }
 func Bool(name string) bool     { return next("bool").Val != 0 }
 
 func IntIn(name string, lo, hi int) int { return Int(name) }
+
+// Time returns an arbitrary wall-clock instant without monotonic reading (UTC): seconds in +-2^40 around the
+// Unix epoch, nanoseconds in [0, 1e9).
+func Time(name string) time.Time {
+	sec := Int(name + ".sec")
+	nsec := Int(name + ".nsec")
+	return time.Unix(int64(sec), int64(nsec)).UTC()
+}
 
 func Choice(name string, n int) int { return int(next("choice").Val) }
 
@@ -238,6 +248,7 @@ func RunReplay(name string, h func()) (outcome string) {
 		}
 		fmt.Printf("ZZVERIF-OUTCOME %s %s\n", name, outcome)
 	}()
+	debug.SetMaxStack(256 << 20)
 	h()
 	return "ok"
 }
